@@ -349,7 +349,7 @@ def sequences(rng, tier):
     """call-sequence (history) cases: 2-4 calls in one interpreter state on equal shapes, one argument changed per step,
     sometimes returning to the first call"""
     kp, ko = (24, 8) if tier == 'quick' else (240, 80)
-    nsub = 3 if tier == 'quick' else 12
+    nsub = 1 if tier == 'quick' else 8
     plans = [('ps', kp), ('shot', ko), ('read', ko), ('dark', ko)]
     for op, cnt in plans:
         for q in range(cnt):
@@ -637,8 +637,10 @@ def run_seq(c):
         fresh_state()
         same.append(bool(_same(as_tuple(r), _try(call_of(sub)))))
     if c.get('subprocess'):
-        for sub, r in zip(c['calls'], seq):
-            same_sub.append(bool(_same(as_tuple(r), subprocess_result(sub))))
+        from concurrent.futures import ThreadPoolExecutor
+        with ThreadPoolExecutor(max_workers=4) as ex:       # independent interpreters: started side by side
+            subs = list(ex.map(subprocess_result, c['calls']))
+        same_sub = [bool(_same(as_tuple(r), f)) for r, f in zip(seq, subs)]
     fresh_state()
     res = {'calls': seq, 'same_as_fresh': same}
     if c.get('subprocess'):
